@@ -1,13 +1,26 @@
 (* props: C19, C09 *)
 (* Every function of the current source that touches a mutex releases it on every path. *)
-From Coq Require Import List Bool.
+From Coq Require Import List Bool NArith.
 From Ice Require Import Base Lock.
 From IceGen Require Import Generated.
+Open Scope N_scope.
 
 Theorem tie_all_skeletons_balanced : forallb balanced all_skels = true.
 Proof. vm_compute. reflexivity. Qed.
-(* the function the property is about is still among them *)
-Theorem tie_dictionary_balanced : balanced skel_Segment_dictionary = true.
+
+(* the list is not vacuous: every Lock()/RLock() call expression the translator finds in the
+   syntax tree of the package (counted independently of the skeleton extraction) is a KLock
+   of one of the skeletons, and there is at least one (the FST cache of a segment is guarded) *)
+Fixpoint count_locks (s : skel) : N :=
+  match s with
+  | KLock => 1
+  | KSeq a b => count_locks a + count_locks b
+  | KIf a b => count_locks a + count_locks b
+  | KLoop b => count_locks b
+  | _ => 0
+  end.
+Theorem tie_every_lock_site_in_a_skeleton :
+  fold_right (fun s n => count_locks s + n) 0 all_skels = lock_call_sites.
 Proof. vm_compute. reflexivity. Qed.
-Theorem tie_dictionary_listed : In skel_Segment_dictionary all_skels.
-Proof. simpl. auto. Qed.
+Theorem tie_some_lock_site : 0 < lock_call_sites.
+Proof. vm_compute. reflexivity. Qed.
